@@ -4,3 +4,4 @@ import MiniconfVerif.Props.C13
 #print axioms MiniconfVerif.C13.loss_restarts
 #print axioms MiniconfVerif.C13.transitions
 #print axioms MiniconfVerif.C13.transition_table_matches
+#print axioms MiniconfVerif.C13.source_update_is_model
